@@ -559,13 +559,22 @@ def km_helper_obligations(P):
                               detail="; ".join("%s %s" % (e[1], e[2]) for e in ev[:3]) or None, key={"helper": hn}))
     # m = ustar phi_m / (k ws)
     zmv, wsv, usv, Lp = _param("zm"), _param("ws"), _param("ustar"), _param("Lmo")
-    ph = alg.sym("phi_m", pos=True)
-    stub = {"bldfm.ffm_kormann_meixner._phiM": (lambda I, a, kw, node: Arr((ONE,), ph, "float", {}))}
+    def _phi_of(zv, lv):
+        return alg.fn("phi_m", zv, lv, pos=True)
+
+    def _phi_stub(I, a, kw, node):
+        # phi_m of whatever the helper is handed, in the helper's own (height, Obukhov length) order
+        vals = [x.val if isinstance(x, Arr) else x for x in list(a) + [kw.get(n) for n in ("zm", "mo_len")[len(a):]]]
+        if len(vals) != 2 or not all(isinstance(x, Expr) for x in vals):
+            return Unknown("_phiM of arguments that are not followed")
+        return Arr((ONE,), _phi_of(vals[0], vals[1]), "float", {})
+
+    stub = {"bldfm.ffm_kormann_meixner._phiM": _phi_stub}
     res = CM.run_paths(P, "bldfm.ffm_kormann_meixner", "_mParam", [Arr((ONE,), zmv, "float", {}), Arr((ONE,), wsv, "float", {}), Arr((ONE,), usv, "float", {}), Arr((ONE,), Lp, "float", {})], {}, stubs=stub)
     rets = [r for r in res if r.kind == "return"]
     site = "src/bldfm/ffm_kormann_meixner.py::_mParam"
     if len(rets) == 1 and isinstance(rets[0].value, Arr):
-        obs.append(eq_ob("R-KM-FORM", site, "m = ustar phi_m / (k ws)", rets[0].value.val, usv * ph / (k * wsv), "K&M Eq. 36"))
+        obs.append(eq_ob("R-KM-FORM", site, "m = ustar phi_m(zm, L) / (k ws): the stability function is evaluated at the measurement height and the Obukhov length, in that order", rets[0].value.val, usv * _phi_of(zmv, Lp) / (k * wsv), "K&M Eq. 36"))
     else:
         obs.append(req_ob("R-KM-FORM", site, "one straight path", None))
     return obs
@@ -661,6 +670,10 @@ def km_obligations(P):
         rets = [r for r in res if r.kind == "return"]
         raises = [r for r in res if r.kind == "raise"]
         ok = bool(rets)
+        if res and not rets and all(r.kind == "raise" for r in res) and not any(d.startswith("unknown test") for r in res for d, _ in r.path):
+            # observation series of one common length are what the function is documented for: refusing them all is no estimate
+            obs.append(req_ob("R-KM-Z0", site_z, "observation series of equal length get an estimate (%s)" % stab, False, detail="every path raises: " + "; ".join(sorted({str(r.raise_desc)[:100] for r in res}))[:300]))
+            continue
         obs.append(req_ob("R-KM-Z0", site_z, "no-smoothing path is interpretable (%s)" % stab, ok if ok else None, detail=str([(r.kind, r.raise_desc, r.path) for r in res])[:300]))
         for r in rets:
             v = r.value
